@@ -401,9 +401,10 @@ def make_pmappings(
         pmappings,
         cur_keep_rates,
     ) in parallel(
+        # Results in job order: the order of the pmapping groups decides which of several
+        # equal-cost mappings is kept, so it must not depend on which job finishes first.
         calls,
         pbar=f"Generating pmappings" if print_progress or one_pbar_only else None,
-        return_as="generator_unordered",
     ):
         pmapping_groups[einsum_name].extend(new_pmapping_groups)
         pmapping_objects.setdefault(einsum_name, {}).update(pmappings)
